@@ -237,10 +237,15 @@ func c04Incarnation(t *testing.T, conf *cfg.Config, blockDB dbm.DB, j *c04Journa
 	if err != nil {
 		t.Fatal(err)
 	}
-	if err := cs.Start(); err != nil {
-		t.Fatal(err)
-	}
+	// Start replays the WAL in the calling goroutine and writes round-step records while doing so:
+	// the crashing WAL may kill it there (a crash during replay), so it gets its own goroutine.
+	startErr := make(chan error, 1)
+	go func() { startErr <- cs.Start() }()
 	receiveRoutineDead := false
+	wait := 20 * time.Second
+	if crashAt == 0 {
+		wait = 3 * time.Second
+	}
 	defer func() {
 		cs.Stop() //nolint:errcheck
 		if receiveRoutineDead {
@@ -253,6 +258,10 @@ func c04Incarnation(t *testing.T, conf *cfg.Config, blockDB dbm.DB, j *c04Journa
 	}()
 	for {
 		select {
+		case err := <-startErr:
+			if err != nil {
+				t.Fatal(err)
+			}
 		case e := <-walPanicked:
 			receiveRoutineDead = true
 			if _, ok := e.(ReachedHeightToStopError); ok {
@@ -263,7 +272,12 @@ func c04Incarnation(t *testing.T, conf *cfg.Config, blockDB dbm.DB, j *c04Journa
 			if crashAt == 0 {
 				return "block"
 			}
-		case <-time.After(20 * time.Second):
+		case <-time.After(wait):
+			if crashAt == 0 {
+				// no block: the surviving WAL made the node ask for something the signer must refuse
+				// (e.g. its own proposal was lost); a liveness halt, not a safety matter
+				return "halted-signer-refuses"
+			}
 			return "timeout"
 		}
 	}
@@ -288,7 +302,7 @@ func TestVerifC04WAL(t *testing.T) {
 	root := vg.NewRand(vg.Seed() ^ 0xc04a)
 	cs := vg.NewCases("C04", "c04_wal", "TM.C04.Exec")
 	heightToStop := int64(vg.Scale(1, 3))
-	variants := vg.Scale(2, 6) // per crash index: plain, torn tail, second crash, ...
+	variants := vg.Scale(3, 6) // per crash index: plain, torn tail, second crash, ...
 	maxIdx := vg.Scale(40, 200)
 	done := false
 	for idx := 1; idx <= maxIdx && !done; idx++ {
